@@ -7,11 +7,11 @@ stdout/warnings, num_calls, metadata; `classes`: trace_class/timer_class on ever
 import copy, itertools, json
 from lib import *
 
-UNITS = ['Wrappers']
+UNITS = ['Wrappers', 'Pedantic']
 MODEL = ['Model/WrapperEval.vo']
 PROPS = 'Props/C18.v'
 PRE = ('From Coq Require Import List ZArith Bool String.\n'
-       'From PV Require Import Base.Exn Model.WrapperSem Spec.WrapperSpec Model.WrapperStack Model.WrapperEval.\n'
+       'From PV Require Import Base.Exn Model.WrapperSem Spec.WrapperSpec Model.WrapperStack Model.WrapperKw Model.WrapperEval.\n'
        'Import ListNotations.\nOpen Scope string_scope.')
 
 NAMES = ['self', 'p0', 'p1', 'p2', 'p3', 'q0', 'q1', 'q2', 'x0', 'x1', 'x2', 'old0', 'old1', 'old2', 'cls',
@@ -68,29 +68,24 @@ def all_levels(case):
     return list(case.get('redeco', [])) + list(case['stack'])
 
 
-def kwstrip_n(case, i):
-    """how many leading positionals the require_kwargs at position i of all_levels(case) does not count
-    (DecoratedFunction/FunctionCall.assert_uses_kwargs as they read the generated source); None = no test.
-    No test when the source says *args.  The first positional is dropped when require_kwargs wraps the method itself
-    (getfullargspec of another wrapper shows no `self`; overrides hands the function back unchanged) or when the
-    source shows more `@` lines than allowed (1 if the text `@require_kwargs` occurs in it, else 0)"""
-    if case['sig']['varargs']:
-        return None
+def kw_shape(case, i):
+    """what DecoratedFunction(func) can observe when require_kwargs is the level i of all_levels(case): facts about the
+    rendered source text and about getfullargspec of the callable it wraps.  The decision taken from them (does the test
+    count the receiver) is NOT made here: it is the regenerated Gen/Pedantic.v protocol, see Model/WrapperKw.v.
+    case['ideal_kw'] (never sent to the implementation) pretends that the receiver of a method is always recognised."""
     lv = all_levels(case)
-    at_lines = len(case['stack']) if case.get('apply', '@') == '@' else 0
-    allowed = 1 if (at_lines and any(l['d'] == 'require_kwargs' for l in case['stack'])) else 0
-    inst = bool(case.get('method')) and all(l['d'] == 'overrides' for l in lv[i + 1:])
-    return 1 if (inst or at_lines > allowed) else 0
-
-
-def kwstrip(case, i):
-    n = kwstrip_n(case, i)
-    return 'None' if n is None else f'(Some {coq_nat(n)})'
+    at_lines = len(case['stack']) if case.get('apply', '@') == '@' else 0       # '@' characters before the first def
+    rk_text = bool(at_lines) and any(l['d'] == 'require_kwargs' for l in case['stack'])   # '@require_kwargs' in source
+    first_self = bool(case.get('method')) and all(l['d'] == 'overrides' for l in lv[i + 1:])  # wraps the def itself
+    if case.get('ideal_kw'):
+        first_self = bool(case.get('method'))
+    return (f'{{| ks_name := "f"; ks_first_self := {coq_bool(first_self)}; ks_star_args := {coq_bool(case["sig"]["varargs"])}; '
+            f'ks_staticmethod := false; ks_setter := false; ks_rk_text := {coq_bool(rk_text)}; ks_n_at := {coq_nat(at_lines)} |}}')
 
 
 def clspec(l, case, i):
     rules = coq_list([f'("{a}", "{b}")' for a, b in l.get('rules', [])])
-    return (f'{{| l_name := {DN[l["d"]]}; l_rv := {cval(l.get("rv"))}; l_rules := {rules}; l_kwstrip := {kwstrip(case, i)}; '
+    return (f'{{| l_name := {DN[l["d"]]}; l_rv := {cval(l.get("rv"))}; l_rules := {rules}; l_shape := {kw_shape(case, i)}; '
             f'l_dir := {coq_bool(bool(l.get("dir", True)))} |}}')
 
 
@@ -228,7 +223,7 @@ def parse_stack_output(xs, c):
 def parse_class_output(xs):
     cur = Cursor(xs)
     sides = []
-    for last in (False, True):
+    for last in (False, False, True):
         reach = cur.take()[0]
         d = {'reach': reach}
         if reach:
@@ -557,6 +552,97 @@ def stat(k):
     STATS[k] = STATS.get(k, 0) + 1
 
 
+def model_obs(c, m, sigs):
+    """the model's prediction in the shape of an observation of the implementation"""
+    def meta(attrs, iscoro):
+        d = {x: bool(attrs) for x in ('name', 'qualname', 'doc', 'module')}
+        d.update({'iscoro': bool(iscoro), 'twin_iscoro': bool(c['async']), 'wrapped': True})
+        return d
+    return {'results': m['results'], 'counts': m['counts'], 'journal': canon_model_journal(m['journal'], sigs),
+            'events': m['events'], 'meta': meta(m['attrs'], m['iscoro']), 'meta2': meta(m['attrs2'], m['iscoro2'])}
+
+
+def stack_props(c, obs, twin, s, sigs, count_stats=True):
+    """the statement on one observation (of the implementation, or of the model)"""
+    prop = []
+    names = [l['d'] for l in c['stack']]
+    names2 = [l['d'] for l in all_levels(c)]
+    n1, n2 = len(c['calls']), len(c.get('calls2', []))
+    ij = obs['journal']
+
+    def st(k):
+        if count_stats:
+            stat(k)
+    for mm, nn, when in ((obs['meta'], names, ''), (obs['meta2'], names2, ' (after the second decoration)')):
+        bad = [x for x in ('name', 'qualname', 'doc', 'module') if not mm[x]]
+        if bad:
+            prop.append(f'decorated callable lost __{bad[0]}__ of the function it wraps{when}')
+        if not mm['wrapped']:
+            prop.append(f'__wrapped__ chain does not lead to the decorated function{when}')
+        if all(d in KEEPS for d in nn) and mm['twin_iscoro'] and not mm['iscoro']:
+            prop.append(f'a coroutine function is no longer a coroutine function after decoration{when}')
+        if not mm['twin_iscoro'] and mm['iscoro'] and all(d in FULL for d in nn):
+            prop.append(f'a plain function became a coroutine function{when}')
+    if 'no_claim' not in s:
+        st('stack cases judged against the Coq spec (spec_ok)')
+        sj = canon_model_journal(s['journal'], sigs)
+        if obs['results'] != s['results']:
+            k = next(i for i, (x, y) in enumerate(zip(obs['results'], s['results'])) if x != y)
+            who = names if k < n1 else names2
+            prop.append(f'call {k}: the caller gets {describe(obs["results"][k])}, the documented effect of {"/".join(who)} is {describe(s["results"][k])}')
+        elif strip_stamps(ij) != strip_stamps(sj):
+            prop.append(f'body invocations {json.dumps(strip_stamps(ij))[:300]} differ from the documented '
+                        f'{json.dumps(strip_stamps(sj))[:300]} (callee 0 = decorated function, 1 = other_func; bound arguments by identity)')
+    # relational: decorated vs twin, when every level is transparent on every call of the history
+    if transparent_history(c):
+        st('stack cases judged decorated-vs-twin (every level transparent on every call)')
+        tj = canon_impl_journal(twin['journal'])
+        if obs['results'] != twin['results']:
+            k = next(i for i, (x, y) in enumerate(zip(obs['results'], twin['results'])) if x != y)
+            prop.append(f'call {k}: decorated gives {describe(obs["results"][k])}, the undecorated twin {describe(twin["results"][k])}')
+        elif strip_stamps(ij) != strip_stamps(tj):
+            prop.append(f'decorated runs the body as {json.dumps(strip_stamps(ij))[:300]}, the twin as '
+                        f'{json.dumps(strip_stamps(tj))[:300]}')
+    # count_calls: every wrapper object counts the calls it received since it was created
+    nre = len(names2) - len(names)
+    cpos2 = [i for i, d in enumerate(names2) if d == 'count_calls']          # positions, outermost first
+    for col, i in enumerate(cpos2):
+        fresh = i < nre                                                        # created by the second decoration
+        r1 = (not fresh) and reaches(names, i - nre)
+        r2 = reaches(names2, i)
+        col1 = col - sum(1 for q in cpos2 if q < nre)                          # column in the phase 1 rows
+        if r1:
+            st('count_calls histories checked against 1..n')
+            got = [row[col1] for row in obs['counts'][:n1]]
+            if got != list(range(1, n1 + 1)):
+                prop.append(f'count_calls (level {i - nre} of {"/".join(names)}): num_calls after each call is {got}, expected 1..{n1}')
+        if n2 and r2 and (fresh or r1):
+            st('count_calls histories checked across a second decoration')
+            got = [row[col] for row in obs['counts'][n1:]]
+            base = 0 if fresh else n1
+            if got != list(range(base + 1, base + n2 + 1)):
+                prop.append(f'count_calls (level {i} of {"/".join(names2)}, {"created after " + str(n1) + " calls of the callable it wraps" if fresh else "created at the start"}): '
+                            f'num_calls after each later call is {got}, expected {base + 1}..{base + n2}')
+    d1 = [i for i, d in enumerate(names) if d == 'deprecated']
+    d2 = [i for i, d in enumerate(names2) if d == 'deprecated']
+    if (d1 or d2) and all(reaches(names, i) for i in d1) and all(reaches(names2, i) for i in d2):
+        st('deprecated histories checked for one warning per call')
+        got, want = obs['events'].count(2), len(d1) * n1 + len(d2) * n2
+        if got != want:
+            prop.append(f'deprecated: {got} DeprecationWarnings, expected {want} ({n1} calls through {len(d1)} deprecated level(s)'
+                        f'{", then " + str(n2) + " calls through " + str(len(d2)) if n2 else ""}), initial filter {c.get("filter", "default")}')
+    body_runs = [e for e in ij if e[0] == 0]
+    for d in ('mock', 'unimplemented'):
+        if d in names and body_runs:
+            prop.append(f'{d}: the body of the decorated function ran')
+        elif d in names2 and len(body_runs) > n1:
+            prop.append(f'{d}: the body of the decorated function ran after {d} was applied')
+    return prop
+
+
+PENDING = {}        # case key -> (spec, twin observation): stack cases whose failure may be the registered K12 defect
+
+
 def judge_stack(c, impl, out):
     """-> (correspondence problems, property problems)"""
     corr, prop = [], []
@@ -567,9 +653,6 @@ def judge_stack(c, impl, out):
     except Exception as ex:
         return [f'unparsable model output: {ex}'], []
     twin, dec = impl.get('twin', {}), impl.get('dec', {})
-    names = [l['d'] for l in c['stack']]
-    names2 = [l['d'] for l in all_levels(c)]
-    n1, n2 = len(c['calls']), len(c.get('calls2', []))
     if 'deco_error' in twin:
         return [f'the undecorated twin does not load: {twin}'], []
     # --- decoration-time behaviour
@@ -585,82 +668,29 @@ def judge_stack(c, impl, out):
     if 'redeco_error' in dec:
         return [f'the second decoration raised: {dec["redeco_error"]}'], []
     sigs = {0: (c['sig'], 80), 1: ((c.get('other') or NO_OTHER)['sig'], 60)}
-    ij = canon_impl_journal(dec['journal'])
-    mj = canon_model_journal(m['journal'], sigs)
-    meta, meta2 = dec['meta'], dec.get('meta2', dec['meta'])
+    obs = {'results': dec['results'], 'counts': dec['counts'], 'journal': canon_impl_journal(dec['journal']),
+           'events': dec['events'], 'meta': dec['meta'], 'meta2': dec.get('meta2', dec['meta'])}
+    mo = model_obs(c, m, sigs)
     # --- correspondence: implementation vs model
-    for what, a, b in (('results', dec['results'], m['results']), ('num_calls of every count_calls wrapper after each call', dec['counts'], m['counts']),
-                       ('journal of body invocations', ij, mj), ('printed lines / warnings', dec['events'], m['events']),
+    flat = lambda o: [int(all(mm[x] for x in ('name', 'qualname', 'doc', 'module'))) for mm in (o['meta'], o['meta2'])]
+    for what, a, b in (('results', obs['results'], mo['results']),
+                       ('num_calls of every count_calls wrapper after each call', obs['counts'], mo['counts']),
+                       ('journal of body invocations', obs['journal'], mo['journal']),
+                       ('printed lines / warnings', obs['events'], mo['events']),
                        ('warning filter afterwards', dec['filter_after'], m['filter_after']),
-                       ('iscoroutinefunction', [int(meta['iscoro']), int(meta2['iscoro'])], [m['iscoro'], m['iscoro2']]),
-                       ('metadata copied', [int(all(mm[x] for x in ('name', 'qualname', 'doc', 'module'))) for mm in (meta, meta2)],
-                        [m['attrs'], m['attrs2']])):
+                       ('iscoroutinefunction', [int(obs['meta']['iscoro']), int(obs['meta2']['iscoro'])],
+                        [int(mo['meta']['iscoro']), int(mo['meta2']['iscoro'])]),
+                       ('metadata copied', flat(obs), flat(mo))):
         if a != b:
             corr.append(f'{what}: implementation {json.dumps(a)[:300]} model {json.dumps(b)[:300]}')
     # --- property: implementation vs the statement
-    for mm, nn, when in ((meta, names, ''), (meta2, names2, ' (after the second decoration)')):
-        bad = [x for x in ('name', 'qualname', 'doc', 'module') if not mm[x]]
-        if bad:
-            prop.append(f'decorated callable lost __{bad[0]}__ of the function it wraps{when}')
-        if not mm['wrapped']:
-            prop.append(f'__wrapped__ chain does not lead to the decorated function{when}')
-        if all(d in KEEPS for d in nn) and mm['twin_iscoro'] and not mm['iscoro']:
-            prop.append(f'a coroutine function is no longer a coroutine function after decoration{when}')
-        if not mm['twin_iscoro'] and mm['iscoro'] and all(d in FULL for d in nn):
-            prop.append(f'a plain function became a coroutine function{when}')
-    if 'no_claim' not in s:
-        stat('stack cases judged against the Coq spec (spec_ok)')
-        sj = canon_model_journal(s['journal'], sigs)
-        if dec['results'] != s['results']:
-            k = next(i for i, (x, y) in enumerate(zip(dec['results'], s['results'])) if x != y)
-            who = names if k < n1 else names2
-            prop.append(f'call {k}: the caller gets {describe(dec["results"][k])}, the documented effect of {"/".join(who)} is {describe(s["results"][k])}')
-        elif strip_stamps(ij) != strip_stamps(sj):
-            prop.append(f'body invocations {json.dumps(strip_stamps(ij))[:300]} differ from the documented '
-                        f'{json.dumps(strip_stamps(sj))[:300]} (callee 0 = decorated function, 1 = other_func; bound arguments by identity)')
-    # relational: decorated vs twin, when every level is transparent on every call of the history
-    if transparent_history(c):
-        stat('stack cases judged decorated-vs-twin (every level transparent on every call)')
-        if dec['results'] != twin['results']:
-            k = next(i for i, (x, y) in enumerate(zip(dec['results'], twin['results'])) if x != y)
-            prop.append(f'call {k}: decorated gives {describe(dec["results"][k])}, the undecorated twin {describe(twin["results"][k])}')
-        elif strip_stamps(ij) != strip_stamps(canon_impl_journal(twin['journal'])):
-            prop.append(f'decorated runs the body as {json.dumps(strip_stamps(ij))[:300]}, the twin as '
-                        f'{json.dumps(strip_stamps(canon_impl_journal(twin["journal"])))[:300]}')
-    # count_calls: every wrapper object counts the calls it received since it was created
-    nre = len(names2) - len(names)
-    cpos2 = [i for i, d in enumerate(names2) if d == 'count_calls']          # positions, outermost first
-    for col, i in enumerate(cpos2):
-        fresh = i < nre                                                        # created by the second decoration
-        r1 = (not fresh) and reaches(names, i - nre)
-        r2 = reaches(names2, i)
-        col1 = col - sum(1 for q in cpos2 if q < nre)                          # column in the phase 1 rows
-        if r1:
-            stat('count_calls histories checked against 1..n')
-            got = [row[col1] for row in dec['counts'][:n1]]
-            if got != list(range(1, n1 + 1)):
-                prop.append(f'count_calls (level {i - nre} of {"/".join(names)}): num_calls after each call is {got}, expected 1..{n1}')
-        if n2 and r2 and (fresh or r1):
-            stat('count_calls histories checked across a second decoration')
-            got = [row[col] for row in dec['counts'][n1:]]
-            base = 0 if fresh else n1
-            if got != list(range(base + 1, base + n2 + 1)):
-                prop.append(f'count_calls (level {i} of {"/".join(names2)}, {"created after " + str(n1) + " calls of the callable it wraps" if fresh else "created at the start"}): '
-                            f'num_calls after each later call is {got}, expected {base + 1}..{base + n2}')
-    d1 = [i for i, d in enumerate(names) if d == 'deprecated']
-    d2 = [i for i, d in enumerate(names2) if d == 'deprecated']
-    if (d1 or d2) and all(reaches(names, i) for i in d1) and all(reaches(names2, i) for i in d2):
-        stat('deprecated histories checked for one warning per call')
-        got, want = dec['events'].count(2), len(d1) * n1 + len(d2) * n2
-        if got != want:
-            prop.append(f'deprecated: {got} DeprecationWarnings, expected {want} ({n1} calls through {len(d1)} deprecated level(s)'
-                        f'{", then " + str(n2) + " calls through " + str(len(d2)) if n2 else ""}), initial filter {c.get("filter", "default")}')
-    body_runs = [e for e in dec['journal'] if e[0] == 0]
-    for d in ('mock', 'unimplemented'):
-        if d in names and body_runs:
-            prop.append(f'{d}: the body of the decorated function ran')
-        elif d in names2 and len(body_runs) > n1:
-            prop.append(f'{d}: the body of the decorated function ran after {d} was applied')
+    prop = stack_props(c, obs, twin, s, sigs)
+    # candidate for the registered require_kwargs defect: the regenerated model reproduces the implementation, some
+    # keyword call (nothing positional but the receiver) got PedanticCallWithArgsException
+    if prop and not corr and c.get('method') and any(l['d'] == 'require_kwargs' for l in all_levels(c)):
+        calls = list(c['calls']) + list(c.get('calls2', []))
+        if any(r == [6, 10104, 5000] and not call['a'] for r, call in zip(obs['results'], calls)):
+            PENDING[case_key(c)] = (s, twin, sigs)
     return corr, prop
 
 
@@ -697,7 +727,7 @@ def judge_class(c, impl, out):
     if impl is None or 'error' in impl or out is None:
         return [f'no result: impl={str(impl)[:300]} model={"-" if out is None else "ok"}'], []
     try:
-        md, mo = parse_class_output(out)
+        md, mo, mideal = parse_class_output(out)
     except Exception as ex:
         return [f'unparsable model output: {ex}'], []
     twin, dec = impl.get('twin', {}), impl.get('dec', {})
@@ -726,6 +756,13 @@ def judge_class(c, impl, out):
         prop.append(f'{c["deco"]}: {c["member"]} member through {c["access"]}: the function receives '
                     f'{json.dumps(strip_stamps(canon_impl_journal(dec["journal"])))[:250]} instead of '
                     f'{json.dumps(strip_stamps(canon_impl_journal(twin["journal"])))[:250]}')
+    # is this exactly the registered defect?  The model (routing of for_all_methods, regenerated) reproduces what the
+    # implementation did, and the decorator itself, given the arguments the undecorated class routes, is transparent
+    if prop and not corr and mideal == mo and md != mo:
+        if c['member'] in ('static', 'classm') and c['access'] in ('inst', 'subinst'):
+            EXPLAINED[case_key(c)] = 'for_all_methods_static_or_class_method_through_instance'
+        elif c['member'] == 'classm' and c['access'] == 'subclass':
+            EXPLAINED[case_key(c)] = 'for_all_methods_classmethod_through_subclass'
     return corr, prop
 
 
@@ -763,21 +800,19 @@ def judge_meta(c, impl, out):
 # ---------------------------------------------------------------------------------------------------------
 # known findings
 # ---------------------------------------------------------------------------------------------------------
+EXPLAINED = {}      # case -> matcher id of the registered defect that fully explains its property failure
+
+
+def case_key(c):
+    return json.dumps({k: v for k, v in c.items() if k != 'ideal_kw'}, sort_keys=True)
+
+
 def matcher(f, case):
-    m = f.get('matcher', {})
-    if not isinstance(case, dict):
-        return False
-    if m.get('id') == 'require_kwargs_applied_by_call_over_a_wrapper_of_a_method':
-        # a require_kwargs level of a method whose own keyword-only test counts self as a positional argument
-        return (case.get('kind', 'stack') == 'stack' and bool(case.get('method')) and not case['sig']['varargs']
-                and any(l['d'] == 'require_kwargs' and kwstrip_n(case, i) == 0 for i, l in enumerate(all_levels(case))))
-    if case.get('kind') != 'class':
-        return False
-    if m.get('id') == 'for_all_methods_static_or_class_method_through_instance':
-        return case['member'] in ('static', 'classm') and case['access'] in ('inst', 'subinst')
-    if m.get('id') == 'for_all_methods_classmethod_through_subclass':
-        return case['member'] == 'classm' and case['access'] == 'subclass'
-    return False
+    """an open finding covers a failing case only if the judge established that the failure IS the registered defect:
+    the regenerated model reproduces the implementation's outcome on the case, and with the registered mechanism
+    idealised away the property holds on the model (so a lost @wraps, a second invocation ... on the same input is
+    not covered)"""
+    return isinstance(case, dict) and EXPLAINED.get(case_key(case)) == f.get('matcher', {}).get('id')
 
 
 def shrink_candidates(c):
@@ -852,6 +887,20 @@ def run(tier, seed, replay=None):
             except Exception as ex:
                 corr, prop = [f'judge failed: {ex!r}'], []
             res.append((corr, prop, i, m))
+        # is a require_kwargs failure exactly the registered defect?  Re-evaluate the MODEL with the receiver of a method
+        # always recognised by the keyword-only test: if the statement then holds on the model, the defect is that
+        # recognition and nothing else
+        cand = [c for c in cases if case_key(c) in PENDING and case_key(c) not in EXPLAINED]
+        if cand and ck.model_ok:
+            outs = ck.coq_eval(PRE, [coq_case(dict(c, ideal_kw=True)) for c in cand], chunk=150)
+            for c, out in zip(cand, outs):
+                sp, twin, sigs = PENDING.pop(case_key(c))
+                try:
+                    mi, _ = parse_stack_output(out, c)
+                    if 'deco_error' not in mi and not stack_props(c, model_obs(c, mi, sigs), twin, sp, sigs, count_stats=False):
+                        EXPLAINED[case_key(c)] = 'require_kwargs_applied_by_call_over_a_wrapper_of_a_method'
+                except Exception:
+                    pass
         return res
 
     def still_fails(f):
